@@ -1198,6 +1198,8 @@ class MiniInt:
             return float(n["v"])
         if k == "CXXBoolLiteralExpr":
             return int(str(n.get("v")).lower() in ("true", "1"))
+        if k == "DeclRefExpr" and ("ref", n.get("declId")) in env:
+            return self.expr(env[("ref", n["declId"])], env, depth)          # a local reference to modelled storage: read through
         if k == "DeclRefExpr" and n.get("declId") in env:
             return env[n["declId"]]
         if "cv" in n and k not in ("DeclRefExpr", "MemberExpr"):
@@ -1227,13 +1229,15 @@ class MiniInt:
                 env[tgt["declId"]] = old + (1 if op == "++" else -1)
                 return old if n.get("postfix") else env[tgt["declId"]]
             v = self.expr(kids(n)[0], env, depth)
-            return {"!": int(not v), "-": -v, "~": ~v, "+": v}[op]
+            return {"!": lambda: int(not v), "-": lambda: -v, "~": lambda: ~v, "+": lambda: v}[op]()
         if k == "BinaryOperator":
             op = n["op"]
             a_, b_ = kids(n)
             if op == "=":
                 v = self.expr(b_, env, depth)
                 t_ = strip(a_)
+                if t_["k"] == "DeclRefExpr" and ("ref", t_.get("declId")) in env:
+                    t_ = strip(env[("ref", t_["declId"])])                 # written through a local reference
                 if t_.get("declId") is None or t_["k"] != "DeclRefExpr":
                     # a store into modelled storage (an element, a member): the rule's `store` hook takes it
                     if self.store is None or not self.store(render(t_).replace(" ", ""), t_, v, env):
@@ -1316,6 +1320,12 @@ class MiniInt:
                     if v["k"] == "VarDecl":
                         if not kids(v):
                             env[v["declId"]] = 0
+                            continue
+                        ct_ = (v.get("ct") or v.get("t") or "").strip()
+                        i0_ = strip(kids(v)[0])
+                        if self.store is not None and ct_.endswith("&") and not ct_.startswith("const ") and i0_ is not None and \
+                                i0_["k"] in ("CXXOperatorCallExpr", "ArraySubscriptExpr", "MemberExpr", "UnaryOperator"):
+                            env[("ref", v["declId"])] = kids(v)[0]           # T& x = a[i]: reads and writes of x go to a[i]
                             continue
                         try:
                             env[v["declId"]] = self.expr(kids(v)[0], env, depth)
